@@ -325,16 +325,22 @@ def gen_funcs(rng, pool, n):
     return [{"name": nm, "sig": rng.choice(SIGS)} for nm in rng.sample(pool, n)]
 
 
-def gen_package(rng, i):
+def gen_package(rng, i, shape=None):
+    """shape: funcs (only plain functions) | both | ns (ALL targets are namespace methods, one or
+    several namespace types, no exported plain function at all) | ns+helper (namespace methods plus an
+    exported function that is no target) | empty (no targets at all)"""
+    shape = shape or rng.choice(["funcs", "funcs", "funcs", "both", "both", "ns", "ns+helper"])
     pk = {"dir": "imp/p%d" % i, "pkg": rng.choice(["p%d" % i, "tools", "lib", "build"]) if rng.random() < 0.3 else "p%d" % i,
-          "funcs": gen_funcs(rng, FUNC_NAMES, rng.choice([1, 1, 2, 2, 3])), "ns": [], "default": None, "aliases": {},
-          "unexported": rng.sample(["helper", "build", "run"], rng.choice([0, 1, 2])), "nontarget": rng.random() < 0.3, "nested": None}
-    if rng.random() < 0.4:
-        for nn in rng.sample(NS_NAMES, rng.choice([1, 1, 2])):
+          "funcs": [] if shape in ("ns", "ns+helper", "empty") else gen_funcs(rng, FUNC_NAMES, rng.choice([1, 1, 2, 2, 3])),
+          "ns": [], "default": None, "aliases": {}, "shape": shape,
+          "unexported": rng.sample(["helper", "build", "run"], rng.choice([0, 1, 2])),
+          "nontarget": shape == "ns+helper" or (shape in ("funcs", "both") and rng.random() < 0.3), "nested": None}
+    if shape in ("both", "ns", "ns+helper"):
+        for nn in rng.sample(NS_NAMES, rng.choice([1, 1, 2, 3] if shape == "ns" else [1, 1, 2])):
             pk["ns"].append({"name": nn, "methods": gen_funcs(rng, FUNC_NAMES, rng.choice([1, 2]))})
-    if rng.random() < 0.6:
+    if pk["funcs"] and rng.random() < 0.6:
         pk["default"] = rng.choice(pk["funcs"])["name"]
-    if rng.random() < 0.6:
+    if pk["funcs"] and rng.random() < 0.6:
         for a in rng.sample(["zz", "qq", "go", "ship", "b"], rng.choice([1, 2])):
             pk["aliases"][a + str(i)] = rng.choice(pk["funcs"])["name"]
     return pk
